@@ -262,4 +262,124 @@ def combineKinds (a b : LockKind) : LockKind :=
   | _, .absent => .absent
   | _, _ => .plain
 
+
+/-! ### the two routes to a module: package lock and importlib's module locks together
+
+  A second, smaller model for the lock ORDER. A dialect module can be reached first
+  * by the attribute route `sqlglot.dialects.<Name>`: take the package lock, then (inside `import_module`) importlib's
+    lock of the module, run the body, release both;
+  * by the string route `Dialect.get_or_raise("name")` / `import sqlglot.dialects.name` (`_Dialect._try_load`): take only
+    importlib's module lock, run the body, release it.
+  `reentry m` says that the BODY of module `m` goes through the package's lazy `__getattr__` again
+  (`from sqlglot.dialects import X`, `sqlglot.dialects.X`, `from sqlglot.optimizer import x` at import time): it then asks
+  for the package lock while holding a module lock — the reverse order of the attribute route. importlib's dead-lock
+  detection only knows module locks, so nothing breaks the cycle. (Module locks are modelled as plain mutexes: a body
+  never imports the module it belongs to; nested plain imports of OTHER modules are left out — they only take
+  further module locks, which importlib orders / breaks itself.) -/
+namespace Routes
+
+inductive Route
+  | attr (m : Mod)
+  | str (m : Mod)
+  deriving DecidableEq, Repr, Inhabited
+
+inductive Pc
+  | idle
+  | wantP (m : Mod)                 -- attribute route: about to take the package lock
+  | wantM (m : Mod) (viaP : Bool)   -- about to take importlib's lock of module m (holding the package lock iff viaP)
+  | body (m : Mod) (viaP : Bool)    -- holds the module lock, looks at sys.modules / runs the body
+  | reWantP (m : Mod) (viaP : Bool) -- the body re-enters the lazy __getattr__: asks for the package lock
+  | reHasP (m : Mod) (viaP : Bool)  -- … got it (nested), about to give it back and finish the body
+  | relM (m : Mod) (viaP : Bool)    -- about to release the module lock
+  | relP (m : Mod)                  -- about to release the package lock
+  deriving DecidableEq, Repr, Inhabited
+
+structure RCfg where
+  reentry : Mod → Bool
+
+structure RState where
+  pkg : Option (Tid × Nat)      -- the package RLock
+  modLock : Mod → Option Tid    -- importlib's per-module locks
+  loaded : Mod → Bool
+  pc : Tid → Pc
+  todo : Tid → List Route
+
+def setPc (s : RState) (t : Tid) (p : Pc) : RState := { s with pc := fun u => if u = t then p else s.pc u }
+
+def rstepIdle (s : RState) (t : Tid) : Option RState :=
+  match s.todo t with
+  | [] => none
+  | .attr m :: rest => some { s with pc := fun u => if u = t then .wantP m else s.pc u,
+                                     todo := fun u => if u = t then rest else s.todo u }
+  | .str m :: rest => some { s with pc := fun u => if u = t then .wantM m false else s.pc u,
+                                    todo := fun u => if u = t then rest else s.todo u }
+
+def rstepBody (cfg : RCfg) (s : RState) (t : Tid) (m : Mod) (v : Bool) : RState :=
+  if s.loaded m then setPc s t (.relM m v)
+  else if cfg.reentry m then setPc s t (.reWantP m v)
+  else setPc { s with loaded := fun x => if x = m then true else s.loaded x } t (.relM m v)
+
+/-- one atomic step of thread `t`; `none` = finished or blocked -/
+def rstep (cfg : RCfg) (s : RState) (t : Tid) : Option RState :=
+  match s.pc t with
+  | .idle => rstepIdle s t
+  | .wantP m =>
+    match acquire .rlock s.pkg t with
+    | none => none
+    | some lk => some (setPc { s with pkg := lk } t (.wantM m true))
+  | .wantM m v =>
+    match s.modLock m with
+    | some _ => none
+    | none => some (setPc { s with modLock := fun x => if x = m then some t else s.modLock x } t (.body m v))
+  | .body m v => some (rstepBody cfg s t m v)
+  | .reWantP m v =>
+    match acquire .rlock s.pkg t with
+    | none => none
+    | some lk => some (setPc { s with pkg := lk } t (.reHasP m v))
+  | .reHasP m v =>
+    match release .rlock s.pkg t with
+    | none => none
+    | some lk => some (setPc { s with pkg := lk, loaded := fun x => if x = m then true else s.loaded x } t (.relM m v))
+  | .relM m v =>
+    some (setPc { s with modLock := fun x => if x = m then none else s.modLock x } t (if v then .relP m else .idle))
+  | .relP _ =>
+    match release .rlock s.pkg t with
+    | none => none
+    | some lk => some (setPc { s with pkg := lk } t .idle)
+
+def rinit (progs : Tid → List Route) : RState :=
+  { pkg := none, modLock := fun _ => none, loaded := fun _ => false, pc := fun _ => .idle, todo := progs }
+
+def rrun (cfg : RCfg) (s : RState) : List Tid → RState
+  | [] => s
+  | t :: ts =>
+    match rstep cfg s t with
+    | some s' => rrun cfg s' ts
+    | none => rrun cfg s ts
+
+def RComplete (s : RState) : Prop := ∀ t, s.pc t = .idle ∧ s.todo t = []
+
+def Pc.holdsP : Pc → Bool
+  | .wantM _ v => v
+  | .body _ v => v
+  | .reWantP _ v => v
+  | .reHasP _ _ => true
+  | .relM _ v => v
+  | .relP _ => true
+  | _ => false
+
+def Pc.holdsM : Pc → Option Mod
+  | .body m _ => some m
+  | .reWantP m _ => some m
+  | .reHasP m _ => some m
+  | .relM m _ => some m
+  | _ => none
+
+def Pc.isRe : Pc → Bool
+  | .reWantP _ _ => true
+  | .reHasP _ _ => true
+  | _ => false
+
+end Routes
+
 end SqlglotModel.Threads
